@@ -1512,8 +1512,18 @@ bucket_popitem(Bucket* self, PyObject* args)
 static int
 bucket_contains(Bucket *self, PyObject *key)
 {
-    PyObject *asobj = _bucket_get(self, key, 1);
+    PyObject *asobj;
     int result = -1;
+
+#ifdef KEY_CHECK_ON_SET
+    /* A key that can never be stored (see _bucket_set) is not here; don't
+       let its comparisons with the stored keys raise. */
+    if (!KEY_CHECK_ON_SET(key)) {
+        PyErr_Clear();
+        return 0;
+    }
+#endif
+    asobj = _bucket_get(self, key, 1);
 
     if (asobj != NULL) {
         result = PyLong_AsLong(asobj) ? 1 : 0;
